@@ -250,6 +250,7 @@ def judge(rep: Report, traces, owners) -> None:
 
 
 def main(rep: Report, replay: dict | None) -> None:
+    rep.level = "fault_enumeration"
     import gc
 
     gc.disable()  # tens of thousands of acyclic trace records: a full collection stalls for seconds
